@@ -558,6 +558,9 @@ impl<'a> EvalState<'a> {
                 Ok(ExprValue::List(Vec::new()))
             } else {
                 let mut es = EvalState::new(tokens, self.context, &self.checked_vars);
+                // the value is evaluated within the expression which refers to it: its
+                // nesting adds to (rather than multiplies with) what encloses it
+                es.depth = self.depth + 1;
                 let e = expr_list(&mut es)?;
                 if es.peek().is_none() {
                     Ok(e)
